@@ -283,6 +283,9 @@ def c15f(ctx):
     for qn, var in users:
         fn = ctx.fn(qn)
         g = fn.cfg
+        lps = [l for l in fn.walk_all() if isinstance(l, ast.For) and is_call(l.iter, 'imap') and const_value(keyword(l.iter, 'use_result_objects')) is True]
+        if lps and isinstance(lps[0].target, ast.Name):
+            var = lps[0].target.id
         isnone = lambda at: at.op == '==' and ('%s.exception' % var) in at.text and 'None' in at.text
         reads = g.find(lambda x: isinstance(x, ast.Attribute) and x.attr == 'result' and unparse(x.value) == var)
         rer = g.find(lambda x: is_call(x, 'reraise', 'reraise_exception'))
